@@ -96,6 +96,7 @@ SPECS = {
     "C06": dict(modules=["Ovldverif.Props.C06"], streams=["table_static", "fn_static", "levels", "levels_rich"], oracle="C06"),
     "C07": dict(modules=["Ovldverif.Props.C07"], streams=["table_static", "fn_static", "levels"], oracle="C07"),
     "C20": dict(modules=["Ovldverif.Props.C20"], streams=["table_rich", "fn"], oracle="C20"),
+    "C09": dict(modules=["Ovldverif.Props.C09"], streams=["rewrite", "rewrite_struct"], oracle="C09"),
     "C16": dict(modules=["Ovldverif.Props.C16"], streams=["graph"], oracle="C16"),
     "C08": dict(modules=["Ovldverif.Props.C08"], streams=["graph", "graph_deep"], oracle="C08"),
 }
@@ -111,6 +112,8 @@ STREAMS = {
     "dep_f": ("check_dep", "worker_f", lambda seed, n: (seed + 37, max(10, n // 2), None), "F"),
     "levels": ("corr_c", "worker", lambda seed, n: (seed + 41, n, True), "C"),
     "levels_rich": ("corr_c", "worker", lambda seed, n: (seed + 43, n, False), "C"),
+    "rewrite": ("check_rewrite", "worker", lambda seed, n: (seed + 47, n, {}), "H"),
+    "rewrite_struct": ("corr_h", "worker", lambda seed, n: (seed + 53, 6 * n, {}), "H"),
     "graph": ("check_graph", "worker", lambda seed, n: (seed + 19, n, {}), "G"),
     "graph_deep": ("check_graph", "worker", lambda seed, n: (seed + 23, n, {"nnodes": 6}), "G"),
 }
